@@ -358,6 +358,20 @@ def gen_cases(kind, seed, n):
         calls = gen_calls(r, kind, spec, nodes, es, wmode, big)
         cases.append({"id": "%s_%d" % (kind, i), "spec": spec, "nodes": nodes, "edges": es,
                       "wmode": wmode, "calls": calls, "wscale": wscale})
+        if i % 10 == 7 and not big:
+            # decimal (inexact) weights, oracle only: C08's cutoff clause evaluated on the implementation's own
+            # distances - a cutoff EQUAL to a realised distance must keep exactly the entries within it
+            nm = r2.shuffle(POOL)[:4 + r2.below(4)]
+            des = []
+            for _ in range(len(nm) + r2.below(2 * len(nm))):
+                x, y = r2.pick(nm), r2.pick(nm)
+                if x != y:
+                    des.append((x, y, (1 + r2.below(9)) / 10.0, None))
+            dspec = (r2.below(2), 0, 1, 2, 0, 1)
+            cases.append({"id": "%s_d%d" % (kind, i), "spec": dspec, "nodes": [(x, None) for x in nm], "edges": des,
+                          "wmode": "decimal", "wscale": 0, "nomodel": True,
+                          "calls": [{"fn": "cutsweep", "w": 1, "level": 2, "src": [x], "t": None, "c": None,
+                                     "fo": 0, "wp": 1} for x in nm]})
     return cases
 
 
@@ -612,6 +626,33 @@ def c04_oracle(c, obs):
 # C08 oracle: metamorphic relations between the implementation's own answers
 # ------------------------------------------------------------------------------------------
 
+def cutsweep_oracle(c, obs):
+    """decimal-weight cases: the harness compared, for every distance d the unrestricted search realises, the search
+    with cutoff = d against the entries of the unrestricted answer with distance <= d (obs 5080 = [checks, failures],
+    5081 = the failing (source, bits of d, first_only, with_paths))"""
+    import struct
+    msgs = []
+    if not obs or obs[0][1][0][0] != 0:
+        return msgs
+    seen = 0
+    present = {n[0] for n in c["nodes"]} | {e[0] for e in c["edges"]} | {e[1] for e in c["edges"]}
+    for (k, rows, _) in obs:
+        if k == 5080:
+            src = c["calls"][seen]["src"][0] if seen < len(c["calls"]) else None
+            seen += 1
+            if rows[0][0] < 0 and src in present:
+                msgs.append("unrestricted weighted single_source failed on a graph with positive weights")
+        if k == 5081:
+            for (s0, bits, fo, wp) in rows:
+                d = struct.unpack(">d", struct.pack(">q", bits))[0]
+                msgs.append("single_source(weighted, %d, cutoff=%r, first_only=%d, with_paths=%d) is not the unrestricted "
+                            "answer restricted to distance <= cutoff (%r is a distance that search itself reports)"
+                            % (s0, d, fo, wp, d))
+    if seen != len(c["calls"]):
+        msgs.append("cutoff sweep produced %d of %d summaries" % (seen, len(c["calls"])))
+    return msgs
+
+
 def norm(a):
     """{node: (dist, paths)} -> comparable form"""
     return {v: (Fraction(d), sorted(ps)) for v, (d, ps) in a.items()}
@@ -773,6 +814,8 @@ class SpProp(props.BaseProp):
         return to_coq(c)
 
     def oracle(self, c, obs):
+        if c.get("nomodel"):
+            return cutsweep_oracle(c, obs)
         return c04_oracle(c, obs) if self.kind == "c04" else c08_oracle(c, obs)
 
     def case_json(self, c):
@@ -805,8 +848,9 @@ class SpProp(props.BaseProp):
         if missing:
             res["corr_errors"].append("implementation produced no output for %d cases (crash/hang?) e.g. %s"
                                       % (len(missing), missing[:3]))
-        proj = {c["id"]: project(c, impl[c["id"]]) for c in cases if c["id"] in impl}
-        n, diffs, errs = gv.correspond(self.run_module, cases, proj, wd, self.to_coq, shards=self.shards)
+        mcases = [c for c in cases if not c.get("nomodel")]     # decimal-weight cases are decided by the oracle alone
+        proj = {c["id"]: project(c, impl[c["id"]]) for c in mcases if c["id"] in impl}
+        n, diffs, errs = gv.correspond(self.run_module, mcases, proj, wd, self.to_coq, shards=self.shards)
         res["corr_errors"] += errs
         for c, d in diffs:
             res["failing"].append((c, "implementation differs from the model: " + str(d), self.diff_kind))
@@ -863,6 +907,9 @@ class SpProp(props.BaseProp):
         return cur, cur_d
 
     def stats_key(self, c, o):
+        if c.get("nomodel"):
+            n = sum(r[0][0] for (k, r, _) in o if k == 5080 and r[0][0] > 0)
+            return ["weights_decimal", "cutoff_equals_realised_distance_checks_%s" % ("0" if n == 0 else "1-9" if n < 10 else "10+")]
         ks = ["kind_d%d_m%d_s%d" % tuple(c["spec"][:3]), "weights_" + c["wmode"]]
         so = split_obs(c, o)
         ks.append("nodes_%d" % len(so["nodes"]) if so["code"] == 0 else "graph_rejected_%s" % so["code"])
@@ -877,6 +924,8 @@ class SpProp(props.BaseProp):
         return ks
 
     def nontrivial(self, c, o):
+        if c.get("nomodel"):
+            return any(k == 5080 and r[0][0] >= 6 for (k, r, _) in o)
         so = split_obs(c, o)
         if so["code"] != 0 or len(so["nodes"]) < 2:
             return False
